@@ -11,12 +11,29 @@ import re
 from engine import facts as F
 from engine import load
 from engine import lrules as L
+from engine import sx
 from engine import terms as T
 
 LEVEL = "other"
 REC = "fcppt::container::tree::object"
 THIS = ("this",)
 CHILDREN = ("m", THIS, "children_")
+
+
+def _nest_early_returns(stmts):
+    """`if (a) { x; return; } rest...` in a void function is `if (a) { x; } else { rest... }`: rebuild the nested form so that a rule sees
+    one decision tree whichever way the author wrote it (synthetic nodes; the originals are not modified)"""
+    stmts = list(stmts)
+    for i, st in enumerate(stmts):
+        if st.get("k") == "if" and st.get("else") is None and st.get("init") is None:
+            thn = st.get("then") or {}
+            body = list(thn.get("ch", [])) if thn.get("k") == "compound" else [thn]
+            if body and body[-1].get("k") == "return" and body[-1].get("e") is None and i + 1 < len(stmts):
+                rest = _nest_early_returns(stmts[i + 1:])
+                els = rest[0] if len(rest) == 1 else {"k": "compound", "loc": st.get("loc"), "ch": rest}
+                new = {"k": "if", "loc": st.get("loc"), "cond": st.get("cond"), "then": {"k": "compound", "loc": thn.get("loc"), "ch": body[:-1]}, "else": els}
+                return stmts[:i] + [new]
+    return stmts
 
 
 def main(rep, tier, only):
@@ -164,8 +181,16 @@ def main(rep, tier, only):
         if "tree::object" in pts[-1]:
             ws = [w for w in L.field_writes(u, fn, "parent_") if w["how"] == "assign" and L.is_this(u, w["value"])]
             ok = False
+            defs = T.const_local_defs(u, fn)
+
+            def subst(t):
+                if isinstance(t, tuple) and t and t[0] == "v" and t[1] in defs:
+                    return defs[t[1]]
+                if isinstance(t, tuple):
+                    return tuple(subst(x) if isinstance(x, tuple) else x for x in t)
+                return t
             for w in ws:
-                b = w["base"]
+                b = subst(w["base"])     # a named iterator stands for the insert call that produced it
                 # base is (*children_.insert(...)) : the freshly inserted element
                 ok = ok or "insert" in T.show(b)
             if ok:
@@ -199,7 +224,7 @@ def main(rep, tier, only):
         seen_pre.add(F.primary_site(fn))
         u = fn["_unit"]
         defs = T.const_local_defs(u, fn)
-        ifs = [x for x in (fn.get("body") or {}).get("ch", []) if x.get("k") == "if"]
+        ifs = [x for x in _nest_early_returns((fn.get("body") or {}).get("ch", [])) if x.get("k") == "if"]
         why = None
         if len(ifs) != 1:
             why = "the step is not one three-way decision (has children / stack empty / otherwise)"
@@ -240,53 +265,84 @@ def main(rep, tier, only):
                         why = "a leaf does not continue with the top of the position stack (top before pop): %s" % calls
         (rep.fail if why else rep.ok)("TREE-PRE", "pre_order::iterator::increment", F.primary_site(fn), F.describe(fn)[:160],
                                       **({"why": why} if why else {"how": "children? first child + push rest reversed : stack empty? end : top/pop"}))
-    # ---- TREE-ID: child_position finds the child by identity (address), not by value
+    # ---- TREE-ID: child_position finds the child by identity (address), not by value -- decided on the paths of the search, however
+    # it is written (find_if_opt with a lambda, a hand-written loop): every element test must compare ADDRESSES
     seen = set()
+    idcfg = sx.Config(inline_prefixes=("fcppt::algorithm::", "fcppt::range::", "fcppt::optional::"), loop_bound=2, lvalues=True, iter_positions=True)
     for fn in db.fns("fcppt::container::tree::child_position"):
         u = fn["_unit"]
         k2 = "child_position<%s>" % ",".join(fn.get("targs") or [])
         if k2 in seen or len(fn.get("params", [])) != 2:
             continue
         seen.add(k2)
-        parent, child = fn["params"][0], fn["params"][1]
-        how = None
-        for n in F.walk(fn.get("body"), into_lambdas=False):
-            if n.get("k") != "call" or not n.get("args"):
+        parent, child = fn["params"][0]["name"], fn["params"][1]["name"]
+        why = None
+        try:
+            ps = sx.Interp(db, idcfg).paths(fn, limit=60)
+        except sx.Unsupported as e:
+            rep.broken("C09 TREE-ID %s: %s" % (k2, e))
+            continue
+
+        def element_index(t, evs):
+            """k when the term denotes child k of the parent (parent[k] or *(begin(parent) + k)), else None"""
+            if isinstance(t, tuple) and t and t[0] == "elem" and sx.show(t[1]) == parent:
+                return t[2] if isinstance(t[2], int) else None
+            inner = t[2][0] if isinstance(t, tuple) and t and t[0] == "app" and t[1] == "deref" and len(t[2]) == 1 else (t[1] if isinstance(t, tuple) and t and t[0] == "deref" else None)
+            if inner is None:
+                return None
+            k = 0
+            while isinstance(inner, tuple) and inner and inner[0] == "op" and inner[1] == "+" and sx.is_const(inner[3]):
+                k += int(str(inner[3][1]).rstrip("uUlL"))
+                inner = inner[2]
+            if isinstance(inner, tuple) and inner and inner[0] == "ev" and 0 < inner[1] <= len(evs):
+                e = evs[inner[1] - 1]
+                if e[0].split("<")[0].split("::")[-1] in ("begin", "cbegin") and len(e[1]) == 1 and sx.show(e[1][0]) == parent:
+                    return k
+            return None
+        found_some, found_none = False, False
+        for p in ps:
+            if p.outcome[0] != "return":
                 continue
-            a0 = T.unwrap(u, n["args"][0])
-            if not (a0 is not None and a0.get("k") == "ref" and a0.get("id") == parent["id"]):
-                continue
-            for lam in [x for a in n["args"][1:] for x in F.walk(a) if x.get("k") == "lambda"]:
-                for op in lam.get("ops", []):
-                    own = set(p_["id"] for p_ in op.get("params", []))
-                    for r in F.walk(op.get("body"), into_lambdas=False):
-                        if r.get("k") != "return":
-                            continue
-                        e = T.unwrap(u, r.get("e"))
-                        if e is None or e.get("k") != "binop" or e.get("op") != "==":
-                            continue
-                        sides = []
-                        for x in (e["l"], e["r"]):
-                            while x is not None and x.get("k") in ("icast", "cast") and x.get("e") is not None:
-                                x = x["e"]
-                            if x is not None and x.get("k") == "call" and T.callee_qn(u, x) == "std::addressof" and x.get("args"):
-                                y = T.unwrap(u, x["args"][0])
-                                if y is not None and y.get("k") == "ref":
-                                    sides.append(y["id"])
-                                continue
-                            x = T.unwrap(u, x)
-                            if x is not None and x.get("k") == "unop" and x.get("op") == "&":
-                                y = T.unwrap(u, x["e"])
-                                if y is not None and y.get("k") == "ref":
-                                    sides.append(y["id"])
-                        if len(sides) == 2 and child["id"] in sides and (set(sides) - {child["id"]}) <= own and len(set(sides)) == 2:
-                            how = "&child == &element over parent"
-        if how:
-            rep.ok("TREE-ID", k2, F.primary_site(fn), F.describe(fn), how=how)
+            hit = None
+            for d, v in p.decisions:
+                t = sx.show(d)
+                if t.startswith("more(") or (isinstance(d, tuple) and d and d[0] == "cmp" and any(
+                        isinstance(x, tuple) and x and x[0] == "ev" and p.events[x[1] - 1][0].split("<")[0].split("::")[-1] in ("end", "cend") for x in d[2:4])):
+                    continue
+                if not (isinstance(d, tuple) and d and d[0] == "cmp" and d[1] in ("==", "!=")):
+                    why = "an element test that is not a comparison of addresses: %s" % t
+                    break
+                sides = [x[1] if isinstance(x, tuple) and x and x[0] == "addr" else None for x in d[2:4]]
+                if None in sides:
+                    why = "an element test that compares values, not addresses (%s): a structurally equal sibling would be reported instead" % t
+                    break
+                ks = [element_index(x, p.events) for x in sides]
+                others = [sx.show(x) for x, k in zip(sides, ks) if k is None]
+                if len([k for k in ks if k is not None]) != 1 or others != [child]:
+                    why = "an address comparison that is not between an element of the parent and the given child: %s" % t
+                    break
+                eq = v if d[1] == "==" else not v
+                if eq:
+                    hit = [k for k in ks if k is not None][0]
+            if why:
+                break
+            out = sx.show(p.outcome[1])
+            if hit is None:
+                found_none = True
+                if not out.endswith(":none"):
+                    why = "no element has the child's address but the result is %s" % out
+            else:
+                found_some = True
+                if not out.endswith(":some") or ("[%d]" % hit not in out and (("+ %d" % hit) not in out if hit else "begin" not in out)):
+                    why = "the child is element %d but the result is %s" % (hit, out)
+            if why:
+                break
+        if not why and not (found_some and found_none):
+            why = "found / not found are not both possible"
+        if why:
+            rep.fail("TREE-ID", k2, F.primary_site(fn), F.describe(fn), why=why)
         else:
-            rep.fail("TREE-ID", k2, F.primary_site(fn), F.describe(fn),
-                     why="the position of `%s` among the children of `%s` is not found by comparing addresses (`&child == &element`): "
-                         "a structurally equal sibling would be reported instead" % (child["name"], parent["name"]))
+            rep.ok("TREE-ID", k2, F.primary_site(fn), F.describe(fn), how="address comparison with every element in order")
     if only in (None, "TREE-MAP"):
         from checks import c09_map
         c09_map.rules(rep, db)
